@@ -523,8 +523,9 @@ class BaseNetQASMConnection(abc.ABC):
 
         subroutine = self._builder.subrt_compile_subroutine(protosubroutine)
 
-        # It is not known when this subroutine will run: its register outcomes are read
-        # when the application asks for them.
+        # The handles of the outcomes this subroutine leaves in registers travel with it:
+        # they take their values when the subroutine has been committed and has run.
+        subroutine._reg_futures = self._builder._pending_reg_futures  # type: ignore
         self._builder._pending_reg_futures = []
 
         # The pending operations (including the declaration and return of their
@@ -555,17 +556,11 @@ class BaseNetQASMConnection(abc.ABC):
 
         subroutine.instantiate(self.app_id)
 
-        reg_futures = self._builder._pending_reg_futures
+        subroutine._reg_futures = self._builder._pending_reg_futures  # type: ignore
         self._builder._pending_reg_futures = []
 
         # Commit the subroutine to the quantum device
         self.commit_subroutine(subroutine, block, callback)
-
-        # Outcomes that this subroutine leaves in registers: the next subroutine uses
-        # the same registers again, so their handles must get their values before that.
-        self._unread_reg_futures = reg_futures
-        if block:
-            self._read_reg_futures()
 
         self._builder._reset()
 
@@ -596,6 +591,12 @@ class BaseNetQASMConnection(abc.ABC):
             block=block,
             callback=callback,
         )
+
+        # Outcomes that this subroutine leaves in registers: the next subroutine uses
+        # the same registers again, so their handles must get their values before that.
+        self._unread_reg_futures = list(getattr(subroutine, "_reg_futures", []))
+        if block:
+            self._read_reg_futures()
 
     def block(self) -> None:
         """Block until a flushed subroutines finishes.
